@@ -68,6 +68,16 @@ class EvalModel:
                         rex.add(bid)
                         changed = True
             helpers = {bid for bid in self.reach if bid in rex and bid not in self.eval_ids}
+            # private *higher-order* helpers that are handed a closure by the evaluator (`call_prefix(op, || rhs.exec(ctx))`):
+            # what they evaluate and when depends on that closure, so they are read at their call sites too
+            for bid in self.reach:
+                g = prog.by_id[bid]
+                if bid in helpers or bid in self.eval_ids or g.is_closure or g.j.get('reachable', g.is_pub):
+                    continue
+                if any(re.search(r'Fn(Mut|Once)?\(', g.locals[k]['ty']) or 'closure@' in g.locals[k]['ty'] or re.match(r'^(&(mut )?)?[A-Z]\w{0,3}$', g.locals[k]['ty'])
+                       for k in range(1, g.arg_count + 1)):
+                    if any(c in rex for c in prog.callers.get(bid, ())):
+                        helpers.add(bid)
             self.ctx_writers()
             v = prog.view(self.root, keep=lambda g: g.id not in helpers or g.id in self._cw, tag='eval')
             self.bodies = [v]
